@@ -1346,11 +1346,21 @@ func tcpCase(rt *rapid.T, s *tcpScript) {
 		rt.Skip("rig: " + err.Error())
 	}
 	defer cs.Close()
-	for i := 0; i < 300 && up.Accepted() == 0; i++ { // the probe's upstream connection, if the proxy made one
+	// The readiness probe of the rig is a downstream connection, so the tcp proxy opens (and drops) an upstream
+	// connection for it. It has to be over before the case starts: on a loaded machine it can arrive late, and taken
+	// for the case's connection it ends at once with nothing received (seen once in a thorough run as a "truncated"
+	// stream of 0 bytes). No probe connection within 10 s = the rig is not in a known state: the case is skipped.
+	for i := 0; i < 10000 && up.Accepted() == 0; i++ {
 		time.Sleep(time.Millisecond)
 	}
-	for i := 0; i < 2000 && up.Live() > 0; i++ {
+	if up.Accepted() == 0 {
+		rt.Skip("rig: the readiness probe's upstream connection did not show up")
+	}
+	for i := 0; i < 10000 && up.Live() > 0; i++ {
 		time.Sleep(time.Millisecond)
+	}
+	if up.Live() > 0 {
+		rt.Skip("rig: the readiness probe's upstream connection is still open")
 	}
 	atomic.StoreInt32(&armed, 1)
 	c, err := net.DialTimeout("tcp", cs.Addr, 3*time.Second)
